@@ -415,7 +415,7 @@ pub fn replay_backends(spec: &DiffSpec, ops: &[Op], tag: u64) -> DiffOut {
 fn sweep_one<A: Ar>(reserved: u32, unify: bool, backend: Backend, cap: u32, viols: &mut Vec<Violation>, n: &mut u64, tag: u64) {
     hook::set_mode(Mode::Off);
     *n += 1;
-    let cfg = Cfg { sync: A::SYNC, backend, unify, freelist: 1 + (reserved % 2) as u8, cap, reserved, min_seg: 8 + reserved % 5, max_align: 8, retries: 3, magic: (reserved as u16).wrapping_mul(7) };
+    let cfg = Cfg { sync: A::SYNC, backend, unify, freelist: 1 + (reserved % 2) as u8, cap, reserved, min_seg: 8 + reserved % 5, max_align: 8, retries: 3, magic: (reserved as u16).wrapping_mul(7), offset: 0 };
     let opts = cfg.options();
     let eff_unify = cfg.effective_unify();
     let expect_off = if eff_unify { opts.data_offset_unify::<A>() } else { opts.data_offset::<A>() };
